@@ -296,6 +296,11 @@ def _c20_post(ctx):
     res, seen = [], set()
     for b in txt.split("WARNING: DATA RACE")[1:]:
         b = b.split("==================")[0]
+        # a race between two accesses that are both in the harness's own code is the harness's (its fake
+        # coordinator, its scripts), whatever called them
+        tops = re.findall(r"(?:Write|Read|Previous write|Previous read|Atomic write|Previous atomic write|Atomic read|Previous atomic read) at [^\n]*\n\s+[^\n]*\n\s+(/[^\s:]+):\d+", b)
+        if len(tops) >= 2 and all("/verif/harness/" in t and "/memdb/" not in t for t in tops[:2]):
+            continue
         frames = re.findall(r"\n\s+(/(?:repo|verif)/[^\s:]+|/[^\s]*?/pkg/[^\s:]+):(\d+)", b)
         frames = [(re.sub(r"^.*?/pkg/", "pkg/", f), l) for f, l in frames if "/harness/" not in f]
         if not frames:
